@@ -101,7 +101,15 @@ pub enum Op {
     Close { dur: u64 },
     Withdraw,
     /// deposit [native uaaa, cw20 TKB] through the frontend helper; `funds_a` attached, `allow_b` allowance
-    Helper { amounts: [u128; 2], dur: u64, funds_a: u128, allow_b: u128 },
+    Helper {
+        amounts: [u128; 2],
+        dur: u64,
+        funds_a: u128,
+        allow_b: u128,
+        /// slippage tolerance handed to the helper (which has to pass it on to the pair)
+        #[serde(default)]
+        slippage: Option<String>,
+    },
     /// `sent`: tokens made available for the flow asset (funds attached / allowance; when the fee asset is
     /// the same asset this includes the fee). `fee_sent`: funds / allowance of a different fee asset.
     /// `extra`: (asset, amount) additional native coin attached
@@ -281,7 +289,7 @@ impl Scenario for Incent {
     type Step = Step;
 
     fn gen_cfg(rng: &mut Rng, prop: &str, tier: Tier, _idx: u64) -> Cfg {
-        let lp_native = rng.chance(2, 5);
+        let lp_native = rng.chance(2, 5) && prop != "C15";
         let fee_native = rng.chance(3, 5);
         let fee_amount = match rng.below(8) {
             0 => 0,
@@ -321,6 +329,10 @@ impl Scenario for Incent {
             }
         }
         match prop {
+            "C15" => {
+                // deposits through the frontend helper with a slippage tolerance
+                weights[4] = 30;
+            }
             "C11" => {
                 weights[0] += 6;
                 weights[1] += 5;
